@@ -268,18 +268,21 @@ def build(recipe: dict):
             temp_h[mask] = np.nan
         if recipe.get("norm"):
             y = y / np.nanmean(y)
-        if p["zeros"] and not dset and len(y) > 20:
+        if p["zeros"] and not dset and not recipe.get("norm") and len(y) > 20:
             y = y.copy()
             y[np.random.default_rng(_seed("zeros", recipe["mid"], first, n)).choice(
                 np.arange(3, len(y) - 3), max(1, len(y) // 120), replace=False)] = 0.0
         if role == "reporting":
-            y = _alter_observed(y, obs, ga)
+            if fam == "daily":
+                y = _alter_observed(y, obs, ga)
+            # billing: the alteration is applied to the bills themselves (see _billing_ctor), so that "partly blank"
+            # means missing bills, not bills that silently sum fewer days
             if recipe.get("tgap"):
                 temp_h = _apply_tgap(temp_h, 24, gt)  # DST days are 23/25 h; close enough for gap placement
         temp_series = pd.Series(temp_h, index=hidx, name="tempF")
         if fam == "daily":
             return _daily_ctor(recipe, days, y, temp_series, electric, obs)
-        return _billing_ctor(recipe, days, y, temp_series, electric, obs)
+        return _billing_ctor(recipe, days, y, temp_series, electric, obs, ga if role == "reporting" else None)
 
     # hourly families
     if recipe.get("ghi"):
@@ -305,7 +308,7 @@ def build(recipe: dict):
         temp_h[g.choice(sel, int(0.3 * len(sel)), replace=False)] = np.nan
     if recipe.get("norm"):
         y = y / np.nanmean(y)
-    if p["zeros"] and not dset and ghi is None:
+    if p["zeros"] and not dset and not recipe.get("norm") and ghi is None:
         y = y.copy()
         y[np.random.default_rng(_seed("zeros", recipe["mid"], first, n)).choice(
             np.arange(30, len(y) - 30), max(1, len(y) // 500), replace=False)] = 0.0
@@ -371,7 +374,7 @@ def _bill_reads(days, y, bill, mid):
     return idx, np.array(vals, dtype="float64"), ends[-1]
 
 
-def _billing_ctor(recipe, days, y, temp_series, electric, obs):
+def _billing_ctor(recipe, days, y, temp_series, electric, obs, ga=None):
     role = recipe["role"]
     cls = "BillingBaselineData" if role == "baseline" else "BillingReportingData"
     bill = recipe.get("bill", "monthly")
@@ -379,6 +382,8 @@ def _billing_ctor(recipe, days, y, temp_series, electric, obs):
         kwargs = {"is_electricity_data": electric}
         return dict(cls=cls, how="from_series", args=[None, temp_series], kwargs=kwargs, inputs=[temp_series])
     idx, vals, _ = _bill_reads(days, y, bill, recipe["mid"])
+    if ga is not None and obs not in ("raw", "absent"):
+        vals = _alter_observed(vals, obs, ga)
     # final read closes the last period: its own value is never used (NaN convention)
     end = (days[-1].tz_localize(None) + pd.Timedelta(days=1)).tz_localize(days.tz)
     idx = idx.append(pd.DatetimeIndex([end]))
